@@ -37,6 +37,7 @@ def run(prog, rep):
     rep.part(minimum, prog, rep)
     rep.part(ppi, prog, rep)
     rep.part(empty_exits, prog, rep)
+    rep.part(empty_data, prog, rep)
     from .purity import stateless, methods
     stateless(prog, rep, "C10.stateless", methods(prog, {f"{IV}.IntervalSlicer": ["slice_", "_drop_too_small_intervals"], f"{IV}.WidthOfIntervalSlicer": ["_slice"],
                                                           f"{IV}.NumberOfIntervalsSlicer": ["_slice"], f"{IV}.PointsPerIntervalSlicer": ["_slice"]}), what="slicing")
@@ -758,6 +759,35 @@ def _own_nodes(st):
     for v in todo:
         if isinstance(v, ast.AST):
             yield from ast.walk(v)
+
+
+def empty_data(prog, rep):
+    """An empty data vector is in scope (length <= 5 includes 0): zero intervals remain and slice_ must report them (RuntimeError, or three empty lists
+    when min_n_intervals = 0).  max / min of the data taken before any length test raise ValueError instead."""
+    for cls in ("WidthOfIntervalSlicer", "NumberOfIntervalsSlicer"):
+        q = f"{IV}.{cls}._slice"
+        fn = prog.func(q)
+        b = builder(prog, fn, inline=False)
+        pcs = path_conditions(prog, fn, b)
+        data = ("param", "data")
+        n = ("call", G("len"), (data,), ())
+        bad = []
+        seen = 0
+        for st in cfg_of(fn).all_stmts():
+            for node in _own_nodes(st):
+                if isinstance(node, ast.Call):
+                    t = b.term(node, st)
+                    if t[0] == "call" and t[1] in (G("numpy.max"), G("numpy.min"), G("max"), G("min"), G("numpy.amax"), G("numpy.amin")) and t[2][:1] == (data,):
+                        seen += 1
+                        lits = pcs.of(st)
+                        if not (_nonzero(lits, n) or _nonzero(lits, ("attr", data, "size")) or _nonzero(lits, data)):
+                            bad.append(st)
+        if seen == 0:
+            rep.ok("C10.min", f"{q}:empty-data", fn.where(), "no reduction of the data found", nontrivial=False)
+            continue
+        rep.check(not bad, "C10.min", f"{q}:empty-data", fn.where(bad[0]) if bad else fn.where(), "max / min of the data are taken only where there are data",
+                  "np.max(data) / min(data) is evaluated although data may be empty: slice_(np.array([])) raises ValueError ('zero-size array to reduction operation') "
+                  "instead of the RuntimeError for too few intervals (an explicit value_range gives the RuntimeError); return the three empty lists for empty data first")
 
 
 def empty_exits(prog, rep):
